@@ -98,7 +98,7 @@ def extract(repo, failures):
     fl = func_body(bw, r"void\s+_flush_and_run_active_sinks\s*\([^)]*\)\s*\{")
     if fl:
         loop = fl[fl.find("for (auto const& sink : _active_sinks_cache)"):]
-        d["perSinkFlushCatch"] = loop.find("QUILL_TRY") >= 0 and loop.find("QUILL_TRY") < loop.find("flush_sink") and "is_valid_logger" in fl
+        d["perSinkFlushCatch"] = loop.find("QUILL_TRY") >= 0 and loop.find("QUILL_TRY") < loop.find("flush_sink")
     else:
         d["perSinkFlushCatch"] = False
 
@@ -112,6 +112,25 @@ def extract(repo, failures):
         d["timestampBeforeContext"] = 0 <= ls.find("current_timestamp") < ls.find("get_local_thread_context")
     fl2 = func_body(lg, r"void\s+flush_log\s*\([^)]*\)\s*\{")
     d["flushRetries"] = bool(fl2 and re.search(r"while\s*\(\s*!this->(template\s+)?log_statement", fl2))
+
+    # C06: the Flush branch of _process_transit_event flushes the active sinks (unconditionally: interval 0, no periodic
+    # tasks) BEFORE it captures the flag; the flag is stored only after pop_front (popBeforeFlag); flush_log waits on the flag
+    pte = func_body(bw, r"void\s+_process_transit_event\s*\([^)]*\)\s*\{")
+    if pte is None:
+        failures.append("backend: _process_transit_event not found")
+        d["flushBeforeFlag"] = False
+        d["flushIgnoresInterval"] = False
+    else:
+        i_fb = pte.find("Event::Flush)")
+        br = pte[i_fb:] if i_fb >= 0 else ""
+        i_fl = br.find("_flush_and_run_active_sinks(")
+        i_cap = br.find("flush_flag = transit_event.flush_flag")
+        d["flushBeforeFlag"] = 0 <= i_fl < i_cap
+        d["flushIgnoresInterval"] = bool(re.search(r"_flush_and_run_active_sinks\(\s*false\s*,\s*std::chrono::milliseconds\s*\{\s*0\s*\}\s*\)", br))
+    d["flushWaitsOnFlag"] = bool(fl2 and re.search(r"while\s*\(\s*!backend_thread_flushed\.load\(\)\s*\)", fl2)
+                                 and fl2.find("log_statement") < fl2.find("backend_thread_flushed.load()"))
+    # F12: only sinks of loggers that are still valid are flushed (the theorem says "every ACTIVE sink")
+    d["flushOnlyValidLoggers"] = bool(fl and "is_valid_logger" in fl)
 
     # ---- C16: level / filter decision logic (LogLevel.h, LoggerBase.h, LogMacros.h, Sink.h, TransitEvent.h) ----
     levels = []
